@@ -8,7 +8,7 @@ out=/verif/seeded/$id; mkdir -p $out
 cp $wt/seed_out/patch.diff $out/patch.diff; cp $wt/seed_out/seeded_demo.rs $out/seeded_demo.rs; cp $wt/seed_out/notes.md $out/agent_notes.md 2>/dev/null
 head=$(git -C /repo rev-parse HEAD)
 cd $wt
-git stash -q -u 2>/dev/null; git checkout -q --detach $head || exit 3
+git checkout -q -- . 2>/dev/null; git clean -fdq -e target 2>/dev/null; git checkout -q --detach $head || exit 3
 export CARGO_TARGET_DIR=$wt/target CARGO_NET_OFFLINE=true
 res=$out/confirm.log; : > $res
 if ! git apply --check $out/patch.diff 2>>$res; then echo "PATCH DOES NOT APPLY to $head" | tee -a $res; exit 4; fi
